@@ -121,6 +121,7 @@ def table : List Entry := [
   ⟨"dkg.handleRequest|mapzero|sessionReq[req.sessionID].ctx", "", .safe "entry written by the first statement of the function"⟩,
   ⟨"dkg.handleRequest|mapzero|sessionReq[req.sessionID].reply", "", .safe "entry written by the first statement of the function"⟩,
   ⟨"dkg.initDistKeyGenerator|ifaceslot|p.Equal(pub)", "", .model "newDkg: no empty participant slot after n distinct in-range indices (genDkg_total)"⟩,
+  ⟨"dkg.pdkg.Loop|close|close(req.reply)", "", .model "expire (sessStep .expire): the sweep closes the reply channel of a registration that is in the map and deletes it in the same step; registrations in the map have open, pairwise distinct channels (SessInv), so never a second close (session_layer_total)"⟩,
   ⟨"dkg.pdkg.Loop|typeassert|req.(request)", "ok", .safe "comma-ok; local channel"⟩,
   ⟨"dosnode.DosNode.handleCR|callpanics|rand.Int(rand.Reader, randSeed)", "fix:randSeed.Cmp(big.NewInt(1)) == -1", .flag "crRand"⟩,
   ⟨"dosnode.DosNode.handleCR|deref|*hash", "", .safe "byte32 of the 32-byte Keccak digest is non-nil (byte32Len)"⟩,
